@@ -848,7 +848,9 @@ class Fxp():
                 val_dtype = object
                 val = val.astype(object)
             else:
-                val = val.astype(original_vdtype)
+                if not (val.dtype.kind == 'f' and np.issubdtype(original_vdtype, np.integer)):
+                    # (a float value with an integer vdtype is a re-scaled raw value: it has to be rounded, not truncated)
+                    val = val.astype(original_vdtype)
                 val_dtype = np.int64 if self.signed else np.uint64
 
             # rounding and overflowing
